@@ -815,13 +815,20 @@ func (c *Client) peekPacket() (head byte, err error) {
 			}
 		}
 
+		// Peek beyond the buffer size gets ErrBufferFull, even when a
+		// read error left the buffer only partly filled.
+		peekN := min(size, c.bufr.Size())
 		lastN := len(c.peek)
-		c.peek, err = c.bufr.Peek(size)
+		c.peek, err = c.bufr.Peek(peekN)
 		switch {
-		case err == nil: // OK
-			return head, err
-		case head>>4 == typePUBLISH && errors.Is(err, bufio.ErrBufferFull):
+		case err != nil:
+			break
+		case peekN == size: // OK
+			return head, nil
+		case head>>4 == typePUBLISH:
 			return head, &BigMessage{Client: c, Size: size}
+		default:
+			err = bufio.ErrBufferFull
 		}
 
 		// Allow deadline expiry if at least one byte was transferred.
